@@ -42,7 +42,9 @@ LatticesMC == Chains({3}, {"spin", "fermion"}) \cup InfChains({2}, {"fermion"}, 
                     Lat("Square", 2, 2, "open", "periodic", "finite", <<"fermion">>, 1)}
 LatticesOne == {Lat("Chain", 3, 1, "open", "open", "finite", <<"fermion">>, 1)}
 LatticesInf2 == InfChains({2}, {"fermion", "spin"}, 2) \cup InfChains({1}, {"fermion"}, 4)
-LatticesLong == InfChains({1}, {"spin", "fermion"}, 6) \cup InfChains({2}, {"spin"}, 4)
+LatticesLong1 == InfChains({1}, {"spin", "fermion"}, 6)
+LatticesLong2 == InfChains({2}, {"spin"}, 4)
+LatticesLong == LatticesLong1 \cup LatticesLong2
 LatticesQuick == Chains({2, 3, 4}, {"spin", "fermion", "boson1"}) \cup Chains({2, 3}, {"boson2"})
                  \cup InfChains({1}, {"spin", "fermion"}, 4) \cup InfChains({2}, {"spin", "fermion", "boson1"}, 2)
                  \cup InfChains({3}, {"fermion"}, 1)
@@ -215,7 +217,7 @@ LongPatterns(c) ==
 PropMultiLong ==
     /\ Profile = "long" /\ cfg # NoCfg /\ pend = None /\ Len(decls) < MaxDecl /\ Infinite(cfg) /\ Nu(cfg) = 1
     /\ \E p \in LongPatterns(cfg), hc \in BOOLEAN, sw \in {"middle_i", "middle_op"},
-          z \in (IF NCell(cfg) = 1 THEN {<<1, 0>>, <<1, 2>>} ELSE {<<1, 2>>}) :
+          z \in {<<1, 2>>} :
          LET ops == [k \in 1..Len(p) |-> <<p[k][1], <<p[k][2], 0>>, 0>>]
          IN /\ NonEmpty(cfg, Geo(ops))
             /\ pend' = [kind |-> "multi", s |-> Scalar(z), ops |-> ops, str |-> "auto", hc |-> hc, sw |-> sw]
